@@ -45,6 +45,8 @@ def coq_event(ev, txt_hex="", tick_to=None):
     t = octs(txt_hex or "")
     if k == "hs": return "EHandshake"
     if k == "badhs": return "EBadHandshake"
+    if k in ("hsraise", "hsdeny"): return f"(EConnectRaises {t})"
+    if k == "peerBig": raise Unmodelled("event peerBig: message-size limits are not in the Gallina model (oracle-only family)")
     if k == "proxyok": return "EProxyOk"
     if k == "proxybad": return "EProxyBad"
     if k == "sendClose": return f"(ESendClose {optN(ev[1])} {optoct(ev[2])})"
@@ -128,10 +130,11 @@ def coq_obs(fw, s):
         NCR[f["ncr"]], optN(f["localCode"]), optN(f["remoteCode"]), f["pingSeq"])
 
 
-def internal_txt(step):
-    """reason octets of a close frame with an internal failure code written in this step (input to the model)"""
+def internal_txt(step, ev=None):
+    """reason octets of a close frame the library generated for a failure in this step (input to the model): the close
+    frames with an internal failure code, and whatever close frame the step of a raising onConnect wrote"""
     for o in step["out"]:
-        if o[1] == "wclose" and o[2] in (1002, 1007) and o[3] is not None:
+        if o[1] == "wclose" and o[3] is not None and (o[2] in (1002, 1007) or (ev is not None and ev[0] in ("hsraise", "hsdeny"))):
             return o[3]
     return ""
 
@@ -140,7 +143,7 @@ def coq_case(fw, case, res):
     steps = res["steps"]
     evs = []
     for ev, s in zip(case["events"], steps[1:]):
-        evs.append(f"({coq_event(ev, internal_txt(s), s.get('tick_to'))}, {coq_obs(fw, s)})")
+        evs.append(f"({coq_event(ev, internal_txt(s, ev), s.get('tick_to'))}, {coq_obs(fw, s)})")
     return "(%s, %s, [%s])" % (coq_cfg(case["cfg"]), coq_obs(fw, steps[0]), ";\n ".join(evs))
 
 
@@ -284,7 +287,7 @@ TICKS = [["tickrel", "next"], ["tickrel", 125], ["tickrel", 875], ["tickrel", 10
 def alphabet(cfg=None):
     """the full event alphabet of the quantifier; ticks are relative: to the next pending deadline, just short of a
     second, a full second (the driver resolves them to absolute times, which is what the model gets)"""
-    return ([["hs"], ["badhs"]] + CLOSE_VARIANTS + [["sendMessage"], ["sendPrepared"], ["sendPing"], ["sendPong"],
+    return ([["hs"], ["badhs"], ["hsraise"], ["hsdeny"]] + CLOSE_VARIANTS + [["sendMessage"], ["sendPrepared"], ["sendPing"], ["sendPong"],
              ["beginMessage"], ["sendMessageFrame"], ["endMessage"]] + PEER_CLOSE +
             [["peerData"], ["peerFrag", False, False], ["peerFrag", True, False], ["peerFrag", True, True], ["peerHead"], ["peerTail"],
              ["peerPing"], ["peerPong", True], ["peerPong", False], ["peerViolation"], ["peerInvalid"]] +
@@ -362,7 +365,7 @@ def shrink(ck, fw, case, bad_of, rounds=12):
 
 
 def model_trace(ck, case, res):
-    evs = "; ".join(coq_event(ev, internal_txt(s), s.get("tick_to")) for ev, s in zip(case["events"], res["steps"][1:]))
+    evs = "; ".join(coq_event(ev, internal_txt(s, ev), s.get("tick_to")) for ev, s in zip(case["events"], res["steps"][1:]))
     return ck.coq_eval(IMPORTS, [f"conn_trace {coq_cfg(case['cfg'])} [{evs}]"])
 
 
@@ -380,8 +383,12 @@ TRUSTED = [
     "handshake failure), is_open/is_closed resolutions counted per step (asyncio resolves one loop turn later), asyncio's "
     "transport.close() inside connection_lost(exc) after onClose ignored, times on a 125 ms grid (exact in binary floats)",
     "Python str.encode('utf8') yields well-formed UTF-8 (encode_truncate is modelled on octets; lone surrogates raise before)",
-    "not modelled: Hixie-76 (websocket_version 0), proxy connect, flash policy file, message-size limits (close 1009), "
-    "streaming send API, producers, TLS error reasons",
+    "not modelled: Hixie-76 (websocket_version 0), flash policy file, message-size limits (close 1009: oracle-only family), "
+    "raw beginMessageFrame/sendMessageFrameData, producers, TLS error reasons; application callbacks other than onConnect raising "
+    "(onOpen/onMessage/onPing/onPong/onClose): the library has no reaction of its own, the exception leaves dataReceived/"
+    "connectionLost to the framework",
+    "library_close_codes is found by a syntactic sweep (call sites by callee name, code passed positionally or as code=): a code "
+    "smuggled in through *args/**kwargs or computed makes the translator fail closed; calls through aliases are not seen",
     "sync/chopped writes (send_queue/_trigger/_send, _QUEUED_WRITE_DELAY) are NOT in the Gallina model: C05_one_close_frame and "
     "C05_onclose_once quantify over unqueued writes only; queued writes are covered on the implementation side by the "
     "send-queue family judged by the property oracle (no frame of any kind after the close frame, nothing written after "
@@ -477,8 +484,8 @@ def run(ck):
                    "peer data, peer violation, tick to the next pending deadline, tick +1 s, peer TCP drop, delivery of our own "
                    "drop} x role x failByDrop (echoCloseCodeReason=True: one shorter); (2) the timeout grid closeHandshakeTimeout x "
                    "serverConnectionDropTimeout in {0,1,2} s x role x failByDrop x echo on all core sequences of length <= 2 (3) and a "
-                   "third of the grid one longer; (3) ALL sequences of length <= 2 (thorough 3) over the full 39-event alphabet "
-                   "{handshake ok/bad, sendClose x6 argument shapes, sendMessage/sendPreparedMessage/Ping/Pong, beginMessage/sendMessageFrame/endMessage, peer close valid/empty/1-octet/reserved "
+                   "third of the grid one longer; (3) ALL sequences of length <= 2 (thorough 3) over the full 41-event alphabet "
+                   "{handshake ok/bad/onConnect raising an exception or ConnectionDeny, sendClose x6 argument shapes, sendMessage/sendPreparedMessage/Ping/Pong, beginMessage/sendMessageFrame/endMessage, peer close valid/empty/1-octet/reserved "
                    "code/bad UTF-8, peer data/first, middle and last fragment/frame head/frame tail/ping/pong matching or not/violation/invalid payload, 4 kinds of tick, TCP drop clean/"
                    "unclean, own drop}; (4) from CONNECTING (no handshake forced) all sequences of length <= 4 (5) over {handshake "
                    "ok/bad, sendClose, sendMessage, tick, drops} x openHandshakeTimeout {0,1,2} s; (5) random walks of length <= 12 "
@@ -488,7 +495,11 @@ def run(ck):
                    "(9) the streaming send API: all sequences of length <= 3 (4), and one longer after "
                    "beginMessage, over {beginMessage, sendMessageFrame, endMessage, sendMessage, sendPreparedMessage, sendPing, sendClose, peer close, peer "
                    "violation, peer ping, tick, own drop} x role x failByDrop; (10) ORACLE ONLY: beginMessageFrame / "
-                   "sendMessageFrameData used separately and sendPreparedMessage in every state; "
+                   "sendMessageFrameData used separately and sendPreparedMessage in every state; (11) every path on which the library chooses "
+                   "the close code itself: after handshake ok / onConnect raising / onConnect denying, all sequences of length <= 2 (3) over "
+                   "{onConnect raising, protocol violation, invalid payload, message over maxMessagePayloadSize (oracle only), peer close "
+                   "reserved code / 1 octet / bad UTF-8 reason / valid, sendClose, tick, drops} x role x failByDrop x echo, and from "
+                   "CONNECTING with failByDrop=False; "
                    "(6) ORACLE ONLY (not in the "
                    "model): all sequences of length <= 4 (5) with 1..3 queued sends over {sendMessage(sync=True), sendFrame(chopsize=1), "
                    "sendMessage, sendClose x2, peer close, peer violation, tick 10 us, tick 20 us, tick 1 s, TCP drop, own drop}; every sequence on the "
@@ -576,6 +587,23 @@ def run(ck):
               if any(e[0] in ("beginMessageFrame", "sendMessageFrameData", "sendPrepared") for e in evs)]
     rawfam += [dict(cfg=cfg, events=[["hs"], ["beginMessage"], ["beginMessageFrame", 2]] + evs[1:], oracle_only=True) for cfg in sroles
                for evs in seqs(RAW, 2 if quick else 3, [["hs"]]) if len(evs) > 1]
+    # (11) EVERY path on which the library itself chooses the close code, x role x failByDrop x echo: onConnect raising /
+    #      denying right after the handshake, protocol violation, invalid payload, reserved close code, 1-octet close, bad
+    #      UTF-8 in a close reason, message beyond maxMessagePayloadSize (1009; ORACLE ONLY, limits are not in the model),
+    #      each followed by all sequences of length <= 2 (3) over the same events + valid peer close, tick, drops.
+    #      From CONNECTING with failByDrop=False as well (family 4 runs with failByDrop=True).
+    LIB = [["hsraise"], ["peerViolation"], ["peerInvalid"], ["peerBig", 8], ["peerClose", 999, None], ["peerClose1"], ["peerClose", 1000, "ff"],
+           ["peerClose", 1000, "6f6b"], ["sendClose", 1000, None], ["tickrel", "next"], ["peerDrop", True], ["ownDrop"]]
+    libfam = []
+    for cfg in roles_flags:
+        for first in (["hs"], ["hsraise"], ["hsdeny"]):
+            for evs in seqs(LIB, 2 if quick else 3, [first]):
+                big = any(e[0] == "peerBig" for e in evs)
+                libfam.append(dict(cfg=dict(cfg, maxMsg=4) if big else cfg, events=evs, **({"oracle_only": True} if big else {})))
+    libfam += [dict(cfg=base_cfg(role=r, failByDrop=False, openTO=o, pingInt=pi), events=evs) for r in ("server", "client") for o in (0, 1000)
+               for pi in (0, 1000) for evs in seqs(CORE_CONNECTING + [["hsraise"]], 3 if quick else 4, [])]
+    libmodel = [c for c in libfam if not c.get("oracle_only")]
+    ck.bump("family:library-chosen-close-codes", len(libfam))
     ck.bump("family:streaming", len(stream)); ck.bump("family:raw-streaming+prepared(oracle-only)", len(rawfam))
     # (6) the send queue (sync / chopped writes trickled out by _trigger/_send every _QUEUED_WRITE_DELAY = 10 us): NOT in
     #     the Gallina model; implementation against the property oracle only.  All sequences of length <= 4 (thorough 5)
@@ -594,12 +622,12 @@ def run(ck):
     ck.exhaustive = False
     # model comparison (Coq) on a budgeted, deterministic sample of every family; everything on the independent oracle
     budget = 1200 if quick else 6000            # per framework
-    fam = [deep, gridded, full, conn, randoms, codes, proxy, stream]
+    fam = [deep, gridded, full, conn, randoms, codes, proxy, stream, libmodel]
     sample = list(corpus)
     for f in fam:
         sample += rng.sample(f, min(len(f), budget // len(fam)))
     correspondence(ck, "model", {"tx": sample, "aio": sample}, coq_limit=len(sample))
-    rest = syncfam + rawfam + stream + codes + proxy + deep + gridded + full + conn + randoms
+    rest = libfam + syncfam + rawfam + stream + codes + proxy + deep + gridded + full + conn + randoms
     correspondence(ck, "oracle", {"tx": rest[0::2], "aio": rest[1::2]}, coq_limit=0)
     for c in (corpus + randoms)[:4]:
         ck.sample(c)
